@@ -6,13 +6,9 @@ COMMON_TRUSTED = [
     "Lean compiler/runtime for the executable instantiations of the models (Float, Float32, Rat, UInt64, List, String)",
 ]
 
-HOOK_COMMITS = ["f19adfe", "71427de", "9be2068", "df621b3", "8e0d3b7", "51d7784"]
+HOOK_COMMITS = ["f19adfe", "71427de", "9be2068", "df621b3", "8e0d3b7", "51d7784", "e5f5adf"]
 
-NOT_APPLICABLE = {
-    "C06": "end-to-end statistical convergence claim about the empirical law of rand/rand_distr streams: no executable model tied to the code by a "
-           "deterministic correspondence expresses 'within what Monte-Carlo error explains', and a calibrated sampling test may not stand in for a "
-           "theorem (DESIGN.md §6 C06); its logical content (kernels leave the target invariant, rows are the iterates after burn-in) is proved under C01, C02, C05, C09",
-}
+NOT_APPLICABLE = {}
 
 R = "MiniMcmcVerif.Run."
 
@@ -42,6 +38,26 @@ DA = "MiniMcmcVerif.DualAvg."
 NU = "MiniMcmcVerif.NUTS."
 
 PROPS = {
+    "C06": {
+        "obligations": ["MiniMcmcVerif.C06.kernels_leave_target_invariant", "MiniMcmcVerif.MH.mh_stationary", "MiniMcmcVerif.MH.mh_detailed_balance", "MiniMcmcVerif.MH.accept_probability",
+                        "MiniMcmcVerif.Gibbs.gibbs_sweep_invariant", "MiniMcmcVerif.HMC.verlet_reversible", "MiniMcmcVerif.HMC.hmc_step_result", "MiniMcmcVerif.NUTS.selection_uniform",
+                        "MiniMcmcVerif.NUTS.buildTree_prime_admissible", "MiniMcmcVerif.Run.runChain_spec", "MiniMcmcVerif.Seeds.mh_chain_streams_distinct"],
+        "timeout": 3000,
+        "technique": "Lean 4 theorems for the logical content (kernels leave the target invariant given draws with the required laws) + calibrated deterministic-per-seed tests of the draws' laws and of stationarity",
+        "level_text": "PARTIAL. Proved (Lean): the MH kernel satisfies detailed balance and leaves the target stationary and its rule accepts with probability min(1, e^r) under a uniform draw; a Gibbs sweep of full-conditional updates leaves any finite joint "
+                      "invariant; the HMC proposal is L steps of a time-reversible integrator plus a Metropolis test on H; the NUTS candidate is uniform among the admissible points of a subtree; run returns the iterates after burn-in; chains use "
+                      "distinct streams. NOT proved, only validated: that the draws the real steps consume have the laws these theorems assume, and that long-run pooled estimates stay within Monte-Carlo error. Validation (deterministic for a given "
+                      "seed): (a) hook-recorded draws — MH acceptance draws, proposal noise, HMC momenta and uniforms, NUTS momenta, Exp(1) slice draws, direction / adoption / selection uniforms, f32 and f64 — tested against N(0,1) / U[0,1) / Exp(1) "
+                      "by mean, variance, Kolmogorov-Smirnov and lag-1 autocorrelation at 6-sigma / p~1e-9 thresholds; (b) 64 chains per sampler started in a random Gaussian target (so every correct kernel keeps them stationary): z-scores of E[x_i], "
+                      "E[x_i x_j], P(x_i > mean+sd) with the standard error taken across the independent chains must stay below 6.",
+        "level_note": "This is the one property whose deciding part is statistical: a theorem cannot exhibit a wrong draw distribution, and a calibrated test is not a proof — the claim is therefore labelled partial. A hang or an astronomically deep NUTS tree "
+                      "is avoided by cutting histories whose step size collapsed. Detects e.g. momenta of the wrong scale, a squared acceptance draw, Exp(2) slice draws, a kernel bias of a few percent in a second moment; cannot detect biases below "
+                      "about 6 standard errors (~1-3 % of a second moment at the quick tier).",
+        "rule": "per repetition (quick 1, thorough 6): 5 law-test groups (about 1.4e5 draws) and 4 stationarity groups (MH, Gibbs, HMC, NUTS; 64 chains x 250-2500 draws; random SPD Gaussian targets of dimension 1-4; f32/f64 alternating) "
+                "— about 45 moment tests; a group is one non-trivial case",
+        "trusted": ["hook traces report the draws the steps actually consume", "the 64 chains of a sampler are independent (C08) so that the across-chain standard error is valid"],
+        "assumptions": ["false-alarm probability per run about 1e-6 (6-sigma thresholds on ~60 tests)"],
+    },
     "C14": {
         "obligations": ["MiniMcmcVerif.MH.mh_reject_bad", "MiniMcmcVerif.MH.mh_reject_nan", "MiniMcmcVerif.MH.mh_never_bad",
                         "MiniMcmcVerif.HMC.hmc_never_bad", "MiniMcmcVerif.HMC.hmc_row_mem",
